@@ -7,7 +7,8 @@ Scenarios (every combination of):
   job state      unresolved / already resolved with a value / already failed
   worker         in the process list / not in it
   TERM outcome   the worker goes away within the grace wait / it does not /
-                 signalling raises OSError
+                 signalling raises OSError / the process is already gone
+                 (looking its group up raises)
 and the checks
   - a resolved job keeps its value, no callback runs, its worker gets no signal;
   - an unresolved job is failed with TimeLimitExceeded(its limit), exactly
@@ -47,7 +48,11 @@ class FakeWorker:
 def run(state, listed, term):
     log = []
     real = os.getpgid, os.killpg, pool._kill
-    os.getpgid = lambda pid: 1                       # the worker is not a group leader
+    def getpgid(pid):
+        if term == 'gone':                           # the worker has exited and been reaped in the meantime
+            raise ProcessLookupError(3, 'No such process')
+        return 1                                     # the worker is not a group leader
+    os.getpgid = getpgid
     os.killpg = lambda pg, sig: log.append(('KILLPG', pg, sig))
     pool._kill = lambda pid, sig: log.append(('KILL' if sig == signal.SIGKILL else 'SIG%d' % sig, pid))
     try:
@@ -67,8 +72,13 @@ def run(state, listed, term):
         before = (job.ready(), job._success if job.ready() else None, job._value if job.ready() else None, list(calls))
         w = FakeWorker(4242, dies=(term == 'dies'), log=log, term_raises=(term == 'oserror'))
         th = pool.TimeoutHandler([FakeWorker(7, True, log, False)] + ([w] if listed else []), cache, None, None)
-        th.on_hard_timeout(job)
         bad = []
+        try:
+            th.on_hard_timeout(job)
+        except Exception as e:       # noqa
+            bad.append('on_hard_timeout raised %r (job %s, worker listed %s, TERM outcome %s): the scan, and with it every '
+                       'later time limit, dies with it' % (e, state, listed, term))
+            return bad
         if state != 'open':
             if (job.ready(), job._success, job._value, calls) != before:
                 bad.append('a job that already had its result (%s) was changed by on_hard_timeout: now success=%r value=%r, '
@@ -86,7 +96,7 @@ def run(state, listed, term):
                 bad.append('timeout callback ran %d times' % [c[0] for c in calls].count('timeout_cb'))
             sig = [e for e in log if e[-1] == 4242 or (len(e) > 1 and e[1] == 4242)]
             want = []
-            if listed:
+            if listed and term != 'gone':
                 want = [('TERM', 4242)] + ([] if term == 'dies' else [('KILL', 4242)])
             if sig != want or any(e[1] == 7 for e in log):
                 bad.append('signals sent: %r, expected %r (worker listed: %s, TERM outcome: %s)' % (log, want, listed, term))
@@ -99,7 +109,7 @@ def main():
     data = json.load(open(sys.argv[1]))
     print('replay of %s / %s' % (data['function'], data['obligation']))
     found = 0
-    for state, listed, term in itertools.product(('open', 'value', 'failed'), (True, False), ('dies', 'stays', 'oserror')):
+    for state, listed, term in itertools.product(('open', 'value', 'failed'), (True, False), ('dies', 'stays', 'oserror', 'gone')):
         bad = run(state, listed, term)
         if bad:
             found += 1
